@@ -6,6 +6,80 @@
 
 package validate
 
+// ---------------------------------------------------------------------------
+// spec vocabulary: dynamic numeric values
+//
+//@ pred numericVal(v interface{}) = isInt(v) || isUint(v) || isF64(v) || isF32(v)
+//@ pred asF(v interface{}) = ite(isInt(v), float64(int64of(v)), ite(isUint(v), float64(uint64of(v)), ite(isF64(v), float64of(v), float64(float32of(v)))))
+//@ pred exactVal(v interface{}) = implies(isInt(v), int64of(v) >= -9007199254740992 && int64of(v) <= 9007199254740992) && implies(isUint(v), uint64of(v) <= 9007199254740992)
+//@ pred safeBound(m float64) = m >= -9007199254740992.0 && m <= 9007199254740992.0
+//@ pred integralF(m float64) = feq(m, truncF(m))
+
+// ---------------------------------------------------------------------------
+// values.go: numeric leaf helpers (C13: verdict == comparison of the values)
+
 //@ func MaximumInt
 //@   mode bv
-//@   ensures[C13] (result != nil) == ((!exclusive && data > maximum) || (exclusive && data >= maximum))
+//@   ensures[C13,C16] (result != nil) == ((!exclusive && data > maximum) || (exclusive && data >= maximum))
+
+//@ func MaximumUint
+//@   mode bv
+//@   ensures[C13,C16] (result != nil) == ((!exclusive && data > maximum) || (exclusive && data >= maximum))
+
+//@ func Maximum
+//@   mode bv
+//@   ensures[C13,C16] (result != nil) == ((!exclusive && data > maximum) || (exclusive && data >= maximum))
+
+//@ func MinimumInt
+//@   mode bv
+//@   ensures[C13,C16] (result != nil) == ((!exclusive && data < minimum) || (exclusive && data <= minimum))
+
+//@ func MinimumUint
+//@   mode bv
+//@   ensures[C13,C16] (result != nil) == ((!exclusive && data < minimum) || (exclusive && data <= minimum))
+
+//@ func Minimum
+//@   mode bv
+//@   ensures[C13,C16] (result != nil) == ((!exclusive && data < minimum) || (exclusive && data <= minimum))
+
+//@ func MultipleOfInt
+//@   ensures[C13,C16] (result == nil) == (factor > 0 && data % factor == 0)
+
+//@ func MultipleOfUint
+//@   ensures[C13,C16] (result == nil) == (factor > 0 && data % factor == 0)
+
+//@ func MultipleOf
+//@   mode bv
+//@   ensures[C13,C16] implies(factor <= 0.0, result != nil)
+
+//@ func MaximumNativeType
+//@   mode bv
+//@   requires numericVal(val) && exactVal(val) && safeBound(maximum)
+//@   known_finding D4-max when !integralF(maximum)
+//@   known_finding D17-uintptr when kind(val) == 12
+//@   ensures[C13,C16] implies(isInt(val), (result != nil) == ite(exclusive, asF(val) >= maximum, asF(val) > maximum))
+//@   known_finding D4-max when !integralF(maximum)
+//@   known_finding D17-uintptr when kind(val) == 12
+//@   ensures[C13,C16] implies(isUint(val), (result != nil) == ite(exclusive, asF(val) >= maximum, asF(val) > maximum))
+//@   ensures[C13,C16] implies(isF64(val) || isF32(val), (result != nil) == ite(exclusive, asF(val) >= maximum, asF(val) > maximum))
+
+//@ func MinimumNativeType
+//@   mode bv
+//@   requires numericVal(val) && exactVal(val) && safeBound(minimum)
+//@   known_finding D4-min when !integralF(minimum)
+//@   known_finding D17-uintptr when kind(val) == 12
+//@   ensures[C13,C16] implies(isInt(val), (result != nil) == ite(exclusive, asF(val) <= minimum, asF(val) < minimum))
+//@   known_finding D4-min when !integralF(minimum)
+//@   known_finding D17-uintptr when kind(val) == 12
+//@   ensures[C13,C16] implies(isUint(val), (result != nil) == ite(exclusive, asF(val) <= minimum, asF(val) < minimum))
+//@   ensures[C13,C16] implies(isF64(val) || isF32(val), (result != nil) == ite(exclusive, asF(val) <= minimum, asF(val) < minimum))
+
+//@ func MultipleOfNativeType
+//@   mode bv
+//@   requires numericVal(val) && exactVal(val) && safeBound(multipleOf) && multipleOf > 0.0
+//@   known_finding D4-mult when !integralF(multipleOf)
+//@   known_finding D17-uintptr when kind(val) == 12
+//@   ensures[C13,C16] implies(isInt(val), (result == nil) == (int64of(val) % int64(multipleOf) == 0))
+//@   known_finding D4-mult when !integralF(multipleOf)
+//@   known_finding D17-uintptr when kind(val) == 12
+//@   ensures[C13,C16] implies(isUint(val), (result == nil) == (uint64of(val) % uint64(multipleOf) == 0))
